@@ -499,11 +499,14 @@ def run(chk):
                         chk.inconclusive("R4", inst, str(x), loc)
         # R4 constructors leave every slot assigned
         inv = quant.inventory(F)
-        for name, q in sorted(inv.items()):
-            if q.kind == "base":
-                continue
+        # quantity classes, the four tensor classes, Dimensions and the constitutive models: every class with state
+        ctor_classes = [name for name, q in sorted(inv.items()) if q.kind != "base"]
+        ctor_classes += sorted(n for n, r in F.records.items()
+                               if n.startswith("PhQ::") and n not in inv and r.get("fields") and r["loc"].startswith(frontend.INC)
+                               and (n.endswith("<%s>" % T) or "<" not in n) and not n.startswith("PhQ::Internal"))
+        for name in ctor_classes:
             for f in F.methods(name):
-                if f["kind"] != "ctor" or "body" not in f or not f["params"]:
+                if f["kind"] != "ctor" or "body" not in f or not f["params"] or f.get("copy_ctor") or f.get("move_ctor"):
                     continue
                 pts = F.param_types(f)
                 conc = {}
@@ -522,7 +525,8 @@ def run(chk):
                     E = ev.Evaluator(F)
                     _, this_lv, _ = E.run_symbolic(f, concrete=conc)
                     if contains_undef([E.load(this_lv)]):
-                        chk.violated("R4", inst, "constructor leaves a stored component unassigned", short(f.get("def_loc", f["loc"])))
+                        chk.violated("R4", inst, "constructor leaves a stored component unassigned, or computes it from a member that is not initialised yet "
+                                                 "(members are initialised in declaration order, whatever the order of the initialiser list)", short(f.get("def_loc", f["loc"])))
                     else:
                         chk.holds("R4", inst, "all slots assigned", short(f.get("def_loc", f["loc"])), nontrivial=False)
                 except ev.Inconclusive as x:
